@@ -51,7 +51,7 @@ _Q = {
     'nul-family-ids': 60, 'cohort=n': 40, 'cohort=1': 30, 'round>=1e5': 300,
     'stream-seed=0': 6,
 }
-MIN_HITS = {'quick': dict(_Q, **{'hit:fresh-interpreter-history': 60, 'hit:big-population': 5}),
+MIN_HITS = {'quick': dict(_Q, **{'hit:fresh-interpreter-history': 60, 'hit:big-population': 5, 'hit:transient-failure-during-sample': 25}),
             'thorough': dict({k: 15 * v for k, v in _Q.items()}, **{'hit:fresh-interpreter-history': 800, 'hit:big-population': 30})}
 TECHNIQUE = ('runtime monitoring: history-table oracle over (seed, cohort, round) for UniformGetClientSampler under hostile '
              'request orders / fresh samplers / set_round_num, and restart-vs-from-zero differential for '
@@ -449,11 +449,13 @@ def case_bigpop(ctx, jax, cs, mods, rng, case_no):
   """Populations of 10^4 clients and more (any size-dependent sampling strategy): sequential rounds, repeated rounds, fresh
   samplers seated at a round, set_round_num jumps -- every observation of a (seed, round) must agree."""
   fdm, im, sq = mods
-  n = int([9999, 10000, 10001, 12000, 16385, 20011][case_no % 6])
+  n = int([9999, 10000, 10001, 12000, 16385, 20011, 200500, 262145][case_no % 8])
   ex = {'idx': np.zeros(1, np.int64)}
   mapping = {b'p%06d' % i: ex for i in range(n)}
   fd = im.InMemoryFederatedData(mapping)
   seed, cohort = draw_seed(rng), int([1, 50, 200, 777][rng.randint(4)])
+  if n > 100000:
+    cohort = 1500          # large enough for a birthday collision if clients were drawn with replacement
   wit = {'family': 'bigpop', 'population': n, 'seed': seed, 'cohort': cohort}
 
   class W:       # the minimal "world" judge_round needs
@@ -500,6 +502,59 @@ def case_bigpop(ctx, jax, cs, mods, rng, case_no):
   ctx.case_done(('bigpop', n, seed, cohort), sample=wit, klass=['bigpop'])
 
 
+class _Transient(Exception):
+  pass
+
+
+def case_flaky(ctx, jax, cs, mods, rng, case_no):
+  """A user callback (client preprocessor) failing transiently while a round is being loaded: the failed sample() must not have
+  moved the sampler on -- the retry hands out the SAME round, i.e. what a fresh sampler seated at that round hands out."""
+  fdm, im, sq = mods
+  n = int(rng.randint(3, 12))
+  mapping = {b'f%02d' % i: {'idx': np.arange(i, i + 2, dtype=np.int64)} for i in range(n)}
+  armed = {'on': False, 'after': 0}
+
+  def flaky(client_id, ex):
+    if armed['on']:
+      if armed['after'] <= 0:
+        armed['on'] = False
+        raise _Transient('transient failure while loading a client')
+      armed['after'] -= 1
+    return ex
+
+  fd = im.InMemoryFederatedData(mapping).preprocess_client(flaky)
+  seed, cohort = draw_seed(rng), int(rng.randint(1, n + 1))
+  fail_round = int(rng.randint(0, 5))
+  wit = {'family': 'flaky', 'clients': n, 'seed': seed, 'cohort': cohort, 'failing_round': fail_round}
+  r = ctx.call('UniformGetClientSampler', cs.UniformGetClientSampler, fd, cohort, seed, witness=wit)
+  if not r.ok:
+    return ctx.case_done(None, sample=wit, klass=['flaky'])
+  s0 = r.value
+  ids_of = lambda res: tuple(bytes(t[0]) for t in res)
+  ok = True
+  for rnd in range(fail_round):
+    ok = ok and ctx.call('sample', s0.sample, witness=wit).ok
+  if ok:
+    armed.update(on=True, after=int(rng.randint(0, cohort)))
+    rf = ctx.call('sample', lambda: [(c, d.all_examples(), k) for c, d, k in s0.sample()], expect=(_Transient,), witness=wit)
+    armed['on'] = False
+    if not rf.ok and isinstance(rf.exc, _Transient):
+      ctx.count('hit:transient-failure-during-sample')
+      retry = ctx.call('sample', s0.sample, witness={**wit, 'call': 'retry after the failed round'})
+      fresh = ctx.call('UniformGetClientSampler', lambda: cs.UniformGetClientSampler(fd, cohort, seed, fail_round).sample(), witness=wit)
+      if retry.ok and fresh.ok:
+        same = ids_of(retry.value) == ids_of(fresh.value) and [key_bytes(jax, t[2]) for t in retry.value] == [key_bytes(jax, t[2]) for t in fresh.value]
+        ctx.check(same, 'pure/retry-after-failed-sample-is-another-round',
+                  f'sample() raised while loading round {fail_round}; the retry returned {[c.hex() for c in ids_of(retry.value)]}, a fresh '
+                  f'sampler seated at round {fail_round} returns {[c.hex() for c in ids_of(fresh.value)]}', wit)
+        nxt = ctx.call('sample', s0.sample, witness=wit)
+        fresh2 = ctx.call('UniformGetClientSampler', lambda: cs.UniformGetClientSampler(fd, cohort, seed, fail_round + 1).sample(), witness=wit)
+        if nxt.ok and fresh2.ok:
+          ctx.check(ids_of(nxt.value) == ids_of(fresh2.value), 'pure/round-after-retry-differs',
+                    f'the round after the retried round {fail_round} is not round {fail_round + 1}', wit)
+  ctx.case_done(('flaky', n, seed, cohort, fail_round), sample=wit, klass=['flaky'])
+
+
 def run(ctx):
   import fedjax  # pylint: disable=unused-import
   import jax
@@ -522,7 +577,9 @@ def run(ctx):
       case_stream(ctx, jax, cs, mods, rng, tmpdir, int(cid.split('/')[1]))
       traces[cid], TRACE = TRACE, None
     if not ctx.xproc_child:
-      for cid, rng in ctx.cases('bigpop', 6 if ctx.quick else 36):
+      for cid, rng in ctx.cases('flaky', 40 if ctx.quick else 600):
+        case_flaky(ctx, jax, cs, mods, rng, int(cid.split('/')[1]))
+      for cid, rng in ctx.cases('bigpop', 8 if ctx.quick else 40):
         case_bigpop(ctx, jax, cs, mods, rng, int(cid.split('/')[1]))
   finally:
     shutil.rmtree(tmpdir, ignore_errors=True)
